@@ -197,6 +197,7 @@ structure State where
   fdFed : Bool := shared                -- the script is read from a descriptor (`FdReader2` + `Echo`)
   aborted : Bool := false               -- a nested read-eval loop (`eval`, `.`) hit a syntax error
   nonblock : Bool := false              -- O_NONBLOCK of the open file description of standard input
+  inClosed : Bool := false              -- descriptor 0 has been closed (`closein`): every later read of it fails
   errRep : Bool := false                -- a nested read-eval loop reported a syntax error (also inside a subshell)
   deriving Repr
 
@@ -455,9 +456,22 @@ def execCat (s : State) (here : Option (List Char)) : State :=
 def isSpecial (name : String) : Bool :=
   name == ":" || name == "set" || name == "eval" || name == "."
 
+/-- `closein` (a harness built-in: `close(0)`, what `exec <&-` does): nothing more can be read from
+    descriptor 0.  When the script comes from there, the next `FdReader2::next_line` fails
+    (`Err(errno) => return Err(errno.into())`), `peek_char` records `InputState::Error`, and
+    `read_eval_loop` ends: modelled as "nothing is left on the descriptor" plus the flag `inClosed`,
+    from which `readError` / `exitStatus` below derive how the shell ends. -/
+def execClose (s : State) : State :=
+  let all := s.stdin
+  let s' := s.setStdin [] all.length
+  { s' with status := 0, inClosed := true, hitEof := s'.hitEof || s'.shared }
+
+/-- the offset a probe shows: a closed descriptor has none (the harness prints 0) -/
+def shownPos (s : State) : Nat := if s.inClosed then 0 else s.pos
+
 /-- the utilities the scripts use (`a1`…`a3` are harness built-ins named like the aliases) -/
 inductive Util where
-  | probe | aliasName | st | colon | read | alias | unalias | set | cat | echo | unknown
+  | probe | aliasName | st | colon | read | alias | unalias | set | cat | echo | closein | unknown
   deriving DecidableEq, Repr
 
 def classify (name : String) : Util :=
@@ -471,6 +485,7 @@ def classify (name : String) : Util :=
   else if name == "set" then .set
   else if name == "cat" then .cat
   else if name == "echo" then .echo
+  else if name == "closein" then .closein
   else .unknown
 
 def execSet (s : State) (args : List String) : State :=
@@ -494,8 +509,8 @@ def execUnalias (s : State) (args : List String) : State :=
 def execUtil (s : State) (u : Util) (name : String) (args : List String)
     (here : Option (List Char)) : State :=
   match u with
-  | .probe => { s with out := Out.probe s.status args s.pos s.nonblock :: s.out }
-  | .aliasName => { s with out := Out.probe s.status ["@" ++ name] s.pos s.nonblock :: s.out }
+  | .probe => { s with out := Out.probe s.status args (shownPos s) s.nonblock :: s.out }
+  | .aliasName => { s with out := Out.probe s.status ["@" ++ name] (shownPos s) s.nonblock :: s.out }
   | .echo => { s with out := Out.raw ((" ".intercalate args).toUTF8.toList ++ [NL]) :: s.out, status := 0 }
   | .st => { s with status := (args.head?.bind String.toNat?).getD 0 }
   | .colon => { s with status := 0 }
@@ -505,6 +520,7 @@ def execUtil (s : State) (u : Util) (name : String) (args : List String)
   | .unalias => execUnalias s args
   | .set => execSet s args
   | .cat => execCat s here
+  | .closein => execClose s
   | .unknown => { s with status := 127 }
 
 /-- a simple command after expansion: the built-ins -/
@@ -532,6 +548,8 @@ def dotFile (path : String) : Option (List Byte) :=
   else if path == "/d4" then some "probe D4 'multi\nline'\ncat <<E\nh dot é\nE\n".toUTF8.toList
   else if path == "/d5" then some []
   else if path == "/d6" then some "st 3".toUTF8.toList
+  else if path == "/d7" then some "# only a comment\n\n   \n\t# and blanks\n".toUTF8.toList
+  else if path == "/d8" then some "\n# c\nst 4\n\n# trailing comment".toUTF8.toList
   else if path == "/r1" then some "r1 one\nr1 two é\n".toUTF8.toList
   else if path == "/r2" then some "probe FROMR2 a\nprobe FROMR2 b\n".toUTF8.toList
   else none
@@ -597,7 +615,8 @@ def stepSimple (ws : List Word) (here : Option (List Char)) (k : List K) (s : St
 
 /-- one iteration of a nested `read_eval_loop` (`eval`, `.`): mode and aliases are read now, one
     command line is pulled from the nested source and its commands run before the next one is looked
-    at; no command at all sets `$?` to 0; a syntax error makes the (sub)shell exit with status 2 -/
+    at; at the end of the source `$?` is that of the last line that held a command, or 0 if no line
+    did (`if !executed { exit_status = SUCCESS }`); a syntax error makes the (sub)shell exit with status 2 -/
 def stepSrc (text : List Byte) (echoes executed : Bool) (k : List K) (s : State) : List K × State :=
   match (pull (parserOf s) (text.length + 1) [] text).res with
   | .none =>
@@ -606,7 +625,8 @@ def stepSrc (text : List Byte) (echoes executed : Bool) (k : List K) (s : State)
                          else s.echo,
                  status := if executed then s.status else 0 })
   | .ok cs =>
-    (cmds cs ++ .src (pull (parserOf s) (text.length + 1) [] text).rest echoes true :: k,
+    -- `executed |= !command.0.is_empty()`: a line without commands (blank, comment) does not count
+    (cmds cs ++ .src (pull (parserOf s) (text.length + 1) [] text).rest echoes (executed || !cs.isEmpty) :: k,
      { s with echo := if s.verbose && echoes
                       then s.echo ++ toBytes (toChars (pull (parserOf s) (text.length + 1) [] text).text)
                       else s.echo })
@@ -751,6 +771,14 @@ def runFile (script data : List Byte) : State × Outcome × List Iter :=
 
 def run (shared : Bool) (script data : List Byte) : State × Outcome × List Iter :=
   loop (script.length + 2) (initState shared script data) []
+
+/-- the read-eval loop ended because the command descriptor could not be read (`ErrorCause::Io`:
+    "cannot read commands"): descriptor 0 was closed and the script comes from there.  The commands read
+    before — the rest of the line that closed it included — have run; nothing after that line is read. -/
+def readError (st : State) (o : Outcome) : Bool := st.inClosed && st.shared && o == .eof
+
+/-- the exit status of the shell: `ExitStatus::READ_ERROR` after a read error, else `$?` -/
+def exitStatus (st : State) (o : Outcome) : Nat := if readError st o then 128 else st.status
 
 /-- the trace of a run: standard output, oldest first -/
 def traceOf (r : State × Outcome × List Iter) : List Out := r.1.out.reverse
